@@ -15,15 +15,23 @@ from .values import *
 from .core import *
 
 SEP = ' \t'
-LITERAL_TOKENS = {'<': 3, '>': 4}          # token kinds beyond the reader's table (0 plain, 1 open, 2 close): the brackets of the profile line
+LITERAL_TOKENS = {'<': 3, '>': 4, 'no': 11, 'assignment': 12}          # token kinds beyond the reader's table (0 plain, 1 open, 2 close)
+# listing view (result texts): tokens prefix + number + suffix; here ':' is a token character and '/' separates like a blank ("3/5" is seen as 3, 5)
+LISTING_SHAPES = {('s_', ''): 5, ('p_', ''): 6, ('(l_', '):'): 7, ('(l_', ')'): 8, ('s_', ':'): 9, ('(p_', ')'): 10, ('l_', ':'): 14, ('(', ')'): 15}
+NL_TOKEN = 13
 
 
 def empty_text():
     return VText(Text.mk(z3.IntVal(0), z3.K(I, z3.IntVal(0)), z3.K(I, z3.K(I, Tok.mk(0, 0))), z3.K(I, z3.BoolVal(False))))
 
 
-def _token(buf):
+def _token(buf, listing=False):
     """Shape of one maximal run of token characters."""
+    if listing:
+        ints = [i for i, c in enumerate(buf) if isinstance(c, tuple)]
+        if len(ints) == 1 and all(isinstance(c, str) for i, c in enumerate(buf) if i != ints[0]):
+            pre = ''.join(buf[:ints[0]]); suf = ''.join(buf[ints[0] + 1:])
+            if (pre, suf) in LISTING_SHAPES: return Tok.mk(LISTING_SHAPES[(pre, suf)], buf[ints[0]][1])
     if len(buf) == 1 and isinstance(buf[0], tuple): return Tok.mk(0, buf[0][1])
     if len(buf) == 2 and buf[0] == '(' and isinstance(buf[1], tuple): return Tok.mk(1, buf[1][1])
     if len(buf) == 2 and buf[1] == ')' and isinstance(buf[0], tuple): return Tok.mk(2, buf[0][1])
@@ -35,23 +43,34 @@ def _token(buf):
     raise Undecided('written characters %r match no token shape of the file format' % (buf,))
 
 
-def line_tokens_append(ex, cur, r, p, line, in_loop=False):
-    """A local declared 'linetoks': one line under construction, seen as its blank-separated tokens (no line break, no opaque piece)."""
-    lines, tail = tokenise(ex, VStr(list(r.atoms) + ['\n']))
-    if tail or len(lines) != 1: raise Undecided('a line of tokens is appended to in pieces of one line')
-    segs, colon = lines[0]
-    if colon: raise Undecided('a colon inside a token line')
+def line_tokens_append(ex, cur, r, p, line, in_loop=False, listing=False):
+    """A local declared 'linetoks' (or an element of a declared list of token lines): a string under construction, seen as its blank-separated
+    tokens.  Every piece appended inside a loop must end with a separator; a line break is a separator that also leaves the token NL (listing view)."""
     if isinstance(cur, VClosedToks): raise Undecided('a piece is appended directly after a token that was not followed by a separator')
-    ends_sep = bool(r.atoms) and isinstance(r.atoms[-1], str) and r.atoms[-1][-1] in SEP
+    if isinstance(r, VList) and r.kind == 'tok':
+        # string + string where both are token lines: the concatenation of the two token lists (each piece of either ended with a separator)
+        if isinstance(r, VClosedToks): raise Undecided('concatenation with a closed token line')
+        C = fresh('cat', z3.ArraySort(I, Tok)); q = fresh('q', I)
+        p.assume(z3.ForAll([q], z3.Implies(z3.And(0 <= q, q < cur.len), z3.Select(C, q) == z3.Select(cur.arr, q)), patterns=[z3.Select(C, q)]))
+        p.assume(z3.ForAll([q], z3.Implies(z3.And(cur.len <= q, q < cur.len + r.len), z3.Select(C, q) == z3.Select(r.arr, q - cur.len)), patterns=[z3.Select(C, q)]))
+        return VList(cur.len + r.len, C, 'tok')
+    lines, tail = tokenise(ex, VStr(list(r.atoms) + ['\n']), listing)
+    if tail: raise Undecided('an opaque piece inside a token line')
+    if len(lines) != 1 and not listing: raise Undecided('a line of tokens is appended to in pieces of one line')
+    ends_sep = bool(r.atoms) and isinstance(r.atoms[-1], str) and r.atoms[-1][-1] in SEP + '\n'
     if not ends_sep and in_loop: raise Undecided('inside a loop every piece of a token line must end with a separator (the next piece would run into its last token)')
+    if r.atoms and not any(segs for segs, _ in lines) and len(lines) == 1: raise Undecided('a piece of separators only (the string is not empty although it has no token)')
     out = cur
-    for sg in segs:
-        if sg[0] != 'tok': raise Undecided('a joined list inside a token line')
-        out = VList(out.len + 1, z3.Store(out.arr, out.len, sg[1]), 'tok')
+    for n, (segs, colon) in enumerate(lines):
+        if colon: raise Undecided('a colon inside a token line')
+        for sg in segs:
+            if sg[0] != 'tok': raise Undecided('a joined list inside a token line')
+            out = VList(out.len + 1, z3.Store(out.arr, out.len, sg[1]), 'tok')
+        if n < len(lines) - 1: out = VList(out.len + 1, z3.Store(out.arr, out.len, Tok.mk(NL_TOKEN, 0)), 'tok')
     return out if ends_sep else VClosedToks(out.len, out.arr, 'tok')
 
 
-def tokenise(ex, v):
+def tokenise(ex, v, listing=False):
     """Skeleton -> (lines, tail) where lines = [(segments, has_colon)], segments = [('tok', term) | ('list', VList of tok)] and
     tail is True when an opaque text follows the last complete line."""
     items = []
@@ -68,13 +87,13 @@ def tokenise(ex, v):
         else: raise Undecided('piece %r of a written line is outside the text model' % (a,))
     lines = []; segs = []; buf = []; colon = False; tail = False; need_sep = False
     def flush():
-        if buf: segs.append(('tok', _token(list(buf)))); buf.clear()
+        if buf: segs.append(('tok', _token(list(buf), listing))); buf.clear()
     for it in items:
         if tail: raise Undecided('text appended after an opaque block')
         if isinstance(it, str):
             if it == '\n': flush(); lines.append((segs, colon)); segs = []; colon = False; need_sep = False
-            elif it in SEP: flush(); need_sep = False
-            elif it == ':': colon = True        # deleted by the reader: what stands on both sides of it runs together
+            elif it in SEP or (listing and it == '/'): flush(); need_sep = False
+            elif it == ':' and not listing: colon = True        # deleted by the reader: what stands on both sides of it runs together
             else:
                 if need_sep: raise Undecided('characters directly after a joined list')
                 buf.append(it)
